@@ -40,6 +40,12 @@ structure MvccCfg where
   /-- `TxnIterator.advance` records every returned item in the read set; `false` = only items
       whose version is below the read timestamp. -/
   scanTrackAll : Bool
+  /-- the iterator records the range it scanned (keys seen absent included) and a commit conflicts
+      when a later commit wrote inside a scanned range.  Source as-is: `false` — `advance` only
+      fingerprints returned items.  `true` is a model variant (no such code exists): a scan marks
+      the transaction, and a marked transaction conflicts with every commit above its read
+      timestamp (scans here are unbounded, so every key is inside the range). -/
+  scanTracksRange : Bool
   /-- `oracle.initCommitState`: `committed <op> nextTxnTs ⇒ nextTxnTs := committed + 1` (source: `>=`). -/
   seedOp : CmpOp
   /-- `newCommitTs` appends `(ts, conflictKeys)` to `committedTxns`. -/
@@ -63,12 +69,19 @@ structure MvccCfg where
 
 def MvccCfg.good : MvccCfg :=
   { readTsOff := 1, trackGet := true, checksConflict := true, skipOp := .le, intentOp := .gt,
-    intentFinal := false, intentDelGuard := true, scanTrackAll := true, seedOp := .ge,
+    intentFinal := false, intentDelGuard := true, scanTrackAll := true, scanTracksRange := true, seedOp := .ge,
     recordsCommit := true, pruneOp := .le, countOp := .ge, sizeOp := .ge, sendCountOp := .ge,
     sendSizeOp := .ge, wmTracksZero := true, wmHoldsAtDone := true }
 
-/-- the as-is tree (both read-watermark defects present) -/
-def MvccCfg.asis : MvccCfg := { MvccCfg.good with wmTracksZero := false, wmHoldsAtDone := false }
+/-- the tree as it is: everything good except that scans do not track ranges -/
+def MvccCfg.tree : MvccCfg := { MvccCfg.good with scanTracksRange := false }
+
+/-- the tree before d7ef6bd (both read-watermark defects present) -/
+def MvccCfg.asis : MvccCfg := { MvccCfg.tree with wmTracksZero := false, wmHoldsAtDone := false }
+
+/-- what `C03_serializable_range` needs on top of `ConfGood` -/
+def MvccCfg.RangeGood (c : MvccCfg) : Prop := c.scanTracksRange = true
+instance MvccCfg.decRangeGood (c : MvccCfg) : Decidable c.RangeGood := by unfold MvccCfg.RangeGood; exact inferInstance
 
 /-- what the snapshot / atomicity theorems need -/
 def MvccCfg.SnapGood (c : MvccCfg) : Prop := c.readTsOff = 1 ∧ c.seedOp = .ge
@@ -178,6 +191,9 @@ structure Txn where
   tag : Nat                             -- ghost: identifies this txn's `readMark.Begin`
   rkeys : List Key                      -- ghost: keys whose read was served by the store
   rlog : List (Key × Option Val)        -- ghost: those reads with their results
+  scanned : Bool                        -- only used by the `scanTracksRange` variant: a scan happened
+  slog : List (List Key × List (Key × Val))  -- ghost: per scan, (keys shadowed by own pending writes,
+                                        --        the items the STORE served, in key order)
   deriving DecidableEq, Repr
 
 /-- ghost record of one successful read-write commit -/
@@ -186,6 +202,7 @@ structure Commit where
   readTs : Nat
   writes : List (Key × Option Val)
   rlog : List (Key × Option Val)
+  slog : List (List Key × List (Key × Val))
   deriving DecidableEq, Repr
 
 structure St where
@@ -258,11 +275,12 @@ def doneReadS (c : MvccCfg) (s : St) (t : Txn) : St :=
 def discardTxn (c : MvccCfg) (s : St) (id : Nat) (t : Txn) : St :=
   putTxn (doneReadS c s t) id
     { t with discarded := true, writes := [], update := false, readTs := 0, reads := [],
-             ckeys := [], count := 0, size := 0, doneRead := false }
+             ckeys := [], count := 0, size := 0, doneRead := false, scanned := false }
 
 /-- `oracle.hasConflict` -/
 def hasConflict (c : MvccCfg) (s : St) (t : Txn) : Bool :=
-  if t.reads = [] then false
+  if c.scanTracksRange && t.scanned && s.committed.any (fun ct => !(c.skipOp.nat ct.1 t.readTs)) then true
+  else if t.reads = [] then false
   else
     t.reads.any (fun r => s.intent.any (fun p => p.1 = r && c.intentOp.nat p.2 t.readTs)) ||
     (!c.intentFinal &&
@@ -303,10 +321,20 @@ def newCommitTs (c : MvccCfg) (s : St) (t : Txn) : St :=
 def entriesOf (w : List (Key × Option Val)) (ts : Nat) : List Entry :=
   w.map (fun p => ({ key := p.1, ts := ts, val := p.2 } : Entry))
 
+/-- ghost record of a transaction committing at version `ts` -/
+def commitOf (t : Txn) (ts : Nat) : Commit :=
+  { ts := ts, readTs := t.readTs, writes := t.writes, rlog := t.rlog, slog := t.slog }
+
+@[simp] theorem commitOf_ts (t : Txn) (ts : Nat) : (commitOf t ts).ts = ts := rfl
+@[simp] theorem commitOf_readTs (t : Txn) (ts : Nat) : (commitOf t ts).readTs = t.readTs := rfl
+@[simp] theorem commitOf_writes (t : Txn) (ts : Nat) : (commitOf t ts).writes = t.writes := rfl
+@[simp] theorem commitOf_rlog (t : Txn) (ts : Nat) : (commitOf t ts).rlog = t.rlog := rfl
+@[simp] theorem commitOf_slog (t : Txn) (ts : Nat) : (commitOf t ts).slog = t.slog := rfl
+
 /-- the request reaches the LSM: all entries of the transaction at version `ts`, in one batch -/
 def applyCommit (s : St) (t : Txn) (ts : Nat) : St :=
   { s with store := entriesOf t.writes ts ++ s.store,
-           log := { ts := ts, readTs := t.readTs, writes := t.writes, rlog := t.rlog } :: s.log }
+           log := commitOf t ts :: s.log }
 
 /-- `Txn.Commit` / `Txn.CommitWith` (the callback awaited) -/
 def commitTxn (c : MvccCfg) (s : St) (id : Nat) (t : Txn) (io : Bool := false) : St × Out :=
@@ -351,7 +379,8 @@ def setTxnKey (c : MvccCfg) (fp : Key → Nat) (s : St) (id : Nat) (t : Txn) (k 
 def beginTxn (c : MvccCfg) (s : St) (id : Nat) (upd : Bool) : St × Out :=
   let r := s.nextTs - c.readTsOff
   let t : Txn := { update := upd, readTs := r, reads := [], ckeys := [], writes := [], count := 1,
-                   size := 0, discarded := false, doneRead := false, tag := s.nextTag, rkeys := [], rlog := [] }
+                   size := 0, discarded := false, doneRead := false, tag := s.nextTag, rkeys := [], rlog := [],
+                   scanned := false, slog := [] }
   (putTxn { s with rm := s.rm.begin c r s.nextTag, nextTag := s.nextTag + 1 } id t, .okTs r)
 
 /-- a read-only transaction + `NewKeyIterator` (all versions, tombstones are skipped) + Discard -/
@@ -393,9 +422,15 @@ def scanTxn (c : MvccCfg) (fp : Key → Nat) (s : St) (id : Nat) (t : Txn) : St 
   let tracked := if t.update then items.filter (fun it => c.scanTrackAll || decide (it.2.2 < t.readTs)) else []
   -- ghost: the tracked items that were served by the store (not by the txn's own pending write)
   let served := tracked.filter (fun it => ownOf t it.1 = none)
+  -- ghost: the whole observation of the store: every item it served (tracked or not), and the keys
+  -- it was not asked about because the transaction's own pending writes shadow them
+  let own := t.writes.map (·.1)
+  let obs := (items.filter (fun it => ownOf t it.1 = none)).map (fun it => (it.1, it.2.1))
   let t' := { t with reads := t.reads ++ tracked.map (fun it => fp it.1),
                      rkeys := tracked.map (fun it => it.1) ++ t.rkeys,
-                     rlog := served.map (fun it => (it.1, some it.2.1)) ++ t.rlog }
+                     rlog := served.map (fun it => (it.1, some it.2.1)) ++ t.rlog,
+                     scanned := t.scanned || (c.scanTracksRange && t.update),
+                     slog := if t.update then (own, obs) :: t.slog else t.slog }
   (putTxn s id t', .scanned (items.map (fun it => (it.1, it.2.1))))
 
 def maxTs (st : List Entry) : Nat := st.foldr (fun e m => max e.ts m) 0
